@@ -538,6 +538,15 @@ func (f *frame) alloc(n *node, elem types.Type, ptrT types.Type) Val {
 	if name, ok := isOpaque(elem); ok && name == "math/big.Int" {
 		f.bigStore(n, ref, "0") // the zero value of big.Int is 0
 	}
+	if name, ok := isOpaque(elem); ok && name == "strings.Builder" {
+		// the zero value of strings.Builder is an empty builder (ghost contents vcBuffer)
+		if pkg := x.w.Pkgs["ion"]; pkg != nil {
+			if obj := pkg.Pkg.Scope().Lookup("vcBuffer"); obj != nil {
+				gp := Val{T: types.NewPointer(obj.Type()), C: []string{ref}}
+				f.store(n, gp, x.zero(obj.Type()), token.NoPos, "alloc")
+			}
+		}
+	}
 	return p
 }
 
